@@ -352,10 +352,19 @@ func init() {
 			} else if err != nil {
 				obs = "ERR"
 			}
-			if strings.HasPrefix(cs.Extra, "long-string") {
-				// and into a fresh 16-byte buffer (growth steps inside one call, pool-independent)
+			if pan == "" && (cs.TI >= 0 || strings.HasPrefix(cs.Extra, "long-string")) {
+				// and into a fresh 16-byte buffer (every growth step of the output happens inside
+				// this one call, whatever earlier cases left in the buffer pool)
 				out2, err2, pan2 := freshEncode(val, encOpts(cs.Opts))
-				obs += fmt.Sprintf("|fresh:%d,%x,%v,%v", len(out2), fnv64(string(out2)), err2 != nil, pan2 != "")
+				o2 := string(out2)
+				if strings.HasPrefix(obs, "unordered:") {
+					o2 = sortedBytes(out2)
+				}
+				if err2 != nil || pan2 != "" {
+					obs += fmt.Sprintf("|fresh:ERR,%v", pan2 != "")
+				} else {
+					obs += fmt.Sprintf("|fresh:%d,%x", len(out2), fnv64(o2))
+				}
 			}
 			return emit(func() string { return string(ev.J(cs)) }, obs)
 		})
